@@ -79,14 +79,15 @@ def string_alphabet(tier):
     # whitespace variants of a subset (every string in thorough)
     ws_src = out if tier == 'thorough' else (lits[::9] + probes[:20] + pos[::5])
     for s in list(ws_src):
-        for v in (' ' + s, s + ' ', s.replace('-', '  ', 1) if '-' in s else s + '  x', '\t' + s, s + '\n'):
+        for v in (' ' + s, s + ' ', s.replace('-', '  ', 1) if '-' in s else s + '  x', '\t' + s, s + '\n',
+                  s.replace(' ', '\xa0') if ' ' in s else '\xa0' + s, s.replace(' ', '\u2003') if ' ' in s else s + '\x0c'):
             if v not in seen:
                 seen.add(v)
                 out.append(v)
     return out
 
 
-PY_VALUES = [0, 1, -1, 2, 3, 16, 17, 100, 101, 127, 128, 129, 16384, 16385, 10 ** 16, 0.5, 1.5, -0.5, 3.0, 100.5, 1e16,
+PY_VALUES = [1.25e-05, 7.5e-06, 1.0, 2.0, 0, 1, -1, 2, 3, 16, 17, 100, 101, 127, 128, 129, 16384, 16385, 10 ** 16, 0.5, 1.5, -0.5, 3.0, 100.5, 1e16,
              1e-05, -0.0, float('nan'), float('inf'), float('-inf'), True, False, 180, -180, 181, -181, 360, 99, 2.5e-7]
 PY_OBJECTS = [[], b'a', ('a',), {'a': 1}]
 
